@@ -84,8 +84,8 @@ NoLateExit(i, t, lp, ex, n) == (ex = Never /\ i > 0 /\ t > 0) => n - lp <= t + i
 LateAt(t, s, a, g, k, at) == s[k] + t <= at /\ (k > g \/ a[k] = Never \/ a[k] > s[k] + t)
 NoFalseTimeout(t, s, a, g, ex) == ex # Never => \E k \in 1 .. Len(s) : LateAt(t, s, a, g, k, ex)
 (* the region in which the tick-based detector is known to raise false alarms (finding F12): some Pong
-   took longer than one interval *)
-SlowPong(i, s, a) == \E k \in 1 .. Len(s) : a[k] = Never \/ a[k] - s[k] > i
+   did not arrive strictly before the next tick *)
+SlowPong(i, s, a) == \E k \in 1 .. Len(s) : a[k] = Never \/ a[k] - s[k] >= i
 
 InvPing      == PingEveryI(I, sent)
 InvDisabled  == DisabledSilent(I, sent, exitAt)
